@@ -2,8 +2,8 @@ package sx
 
 import (
 	"fmt"
-	"os"
 	"go/token"
+	"os"
 	"sort"
 	"sync"
 	"time"
@@ -320,8 +320,17 @@ func (p *Pool) ExploreAll(jobs []Job) []*HarnessResult {
 				}
 				inflight[t.h]++
 				mu.Unlock()
+				if m.lastH != t.h {
+					// fresh solver process per harness: definitions and learnt state of an
+					// earlier harness must not slow down (or otherwise influence) this one
+					if m.lastHSet {
+						m.S.Restart()
+					}
+					m.lastH, m.lastHSet = t.h, true
+				}
 				m.Conf = job.Conf
 				m.curH = t.h
+				m.deadline = started[t.h].Add(job.Conf.MaxTime + 20*time.Second)
 				before := m.S.Stats
 				bst := m.Stats
 				pr := m.RunPath(job.Fn, t.prefix)
@@ -349,7 +358,7 @@ func (p *Pool) ExploreAll(jobs []Job) []*HarnessResult {
 					res.Done++
 				case "infeasible":
 					res.Infeasible++
-				case "panic":
+				case "panic", "deadlock":
 					res.Panics++
 				case "unsupported":
 					res.Unsupported[pr.End.detail]++
